@@ -1,6 +1,6 @@
 """C19: sessions.  A session is a list of solve() calls executed in ONE interpreter:
 
-    W(seed A)  W(seed B, environment draws interleaved on the shared RNG)  V1  V2(raises)  W(seed C)
+    [pristine import]  W(seed A)  W(seed B, environment draws interleaved on the shared RNG)  V1  V2(raises)  W(seed C)
 
 with W a world that enables no option documented (or, conservatively, coded) as using random directions, and V1/V2
 arbitrary other worlds (V2 ends in an exception).  All W runs must have identical behaviour digests (evaluation points,
@@ -43,6 +43,8 @@ def run_session(W, sess, probes=('c19',)):
     out = []
     runs = []
     digs = []
+    if sess.get('fresh', True):
+        sim.fresh_dfols()      # the first W run is the first solve() after a pristine import
     for step in sess['steps']:
         if step['kind'] == 'W':
             s = S.clone(W)
